@@ -433,11 +433,12 @@ fn is_real_svg(events: &InputList) -> bool {
     for ev in events.iter() {
         if let Ok(el) = SvgElement::try_from(ev.clone()) {
             // "Real" SVG documents will have an `xmlns` attribute with
-            // the value "http://www.w3.org/2000/svg"
+            // the value "http://www.w3.org/2000/svg". A root declaring any other
+            // default namespace is no svgdx document either: as for such an element
+            // nested in a document, it is passed through untouched (and so, like
+            // every output, reproduced when processed again).
             if el.name == "svg" {
-                if let Some(val) = el.get_attr("xmlns") {
-                    return val == "http://www.w3.org/2000/svg";
-                }
+                return el.get_attr("xmlns").is_some();
             }
             return false;
         }
